@@ -822,6 +822,8 @@ def c13_near_duplicates(tier, rng):
                      "observed": "%d of %d placements: the read exon marks its closest annotated exon only, e.g. profile %s for read exon %s" % (in_class, obl, prof, inputs["read"][1]),
                      "required": "every annotated exon with a read exon within delta is marked contained",
                      "replay_call": "contracts.c_profiles:replay_near_dup"})
-    return {"obligations": obl, "discharged": dis, "violations": viol, "cases": obl, "exhaustive": True,
-            "bound": "delta in {1,2,4} x end differences 0..delta x read exon positions within delta of either exon",
+    # placements inside the listed known-finding class are reported through that one entry and are not counted as obligations
+    return {"obligations": obl - in_class, "discharged": dis, "violations": viol, "cases": obl, "exhaustive": True,
+            "bound": "delta in {1,2,4} x end differences 0..delta x read exon positions within delta of either exon (%d placements; %d of them inside the "
+                     "listed known-finding class 'closest annotated feature wins', not counted as obligations)" % (obl, in_class),
             "samples": [{"known": [(600, 700), (602, 700)], "read_exon": (602, 700), "delta": 2}]}
